@@ -46,7 +46,7 @@ def run(tier, seed):
         # the counter that counts is the SIGNED one: unsigned response members carrying authenticator data with a counter above the stored one (an `attestationObject`
         # as registration responses have one, bare copies) change nothing - in the dict / text forms, where such members can be expressed
         import cbor2 as _cbor2
-        lure = authsim.authdata(pol.rp_id, 0x45, min(s_stored + 1, 2 ** 32 - 1), aaguid=bytes(16), cred_id=a.cred_id, cose_bytes=a.cred.cose_bytes)
+        lure = authsim.authdata(pol.rp_id, 0x45, min(max(s_stored, 0) + 1, 2 ** 32 - 1), aaguid=bytes(16), cred_id=a.cred_id, cose_bytes=a.cred.cose_bytes)
         a.extra_response = {"attestationObject": authsim.b64u(_cbor2.dumps({"fmt": "none", "attStmt": {}, "authData": lure})), "authData": authsim.b64u(lure), "signCount": s_stored + 1}
         il, ml = B.run_case(pol, a, form, "accept" if should else "reject", f"counter s={s_stored} c={c}" + ("" if flags == 0x05 else f" flags={flags:#x}") + (" uv-required" if ruv else ""))
         if il.startswith("OK"):
